@@ -9,6 +9,7 @@ import (
 	"go/constant"
 	"go/token"
 	"go/types"
+	"sort"
 	"strings"
 
 	"golang.org/x/tools/go/ssa"
@@ -27,6 +28,7 @@ func runNI(c *Ctx) (obls []Obl) {
 	niHeaders(c, a)
 	niCreator(c, a)
 	niFormat(c, a)
+	niFlags(c, a)
 	return
 }
 
@@ -840,4 +842,236 @@ func niFormat(c *Ctx, a *flAgg) {
 			a.bad("NI-format", "formatCall/"+format, "format "+format+": "+why+": frames that cannot be made relative/local lose their directory (or show a path of another kind)", fn.Pos())
 		}
 	}
+}
+
+// niFlags (NI-flags): the expressions given with -f and -m are the ones the
+// writers apply. Decided in two steps. (1) Backwards from the writers: the
+// parameter each writer uses as "filter" / "match" (whose behaviour NI-split
+// decides) is followed up the call chain — at every call site in package
+// internal it must be fed by a parameter of the caller, which inherits the
+// role — until Main is reached. (2) In Main, on every path that reaches such
+// a call, the argument in the position with role f (m) is the compiled value
+// of the -f (-m) flag whenever that flag is non-empty, and nil when it is
+// empty.
+func niFlags(c *Ctx, a *flAgg) {
+	const rule = "NI-flags"
+	type slot struct {
+		fn  *ssa.Function
+		idx int
+	}
+	role := map[slot]string{}
+	isRegexp := func(t types.Type) bool { return strings.HasSuffix(t.String(), "regexp.Regexp") }
+	var work []*ssa.Function
+	for _, w := range []string{"writeBucketsToConsole", "writeGoroutinesToConsole"} {
+		fn := c.MustFunc(a.obls, rule, "internal", "", w)
+		if fn == nil {
+			continue
+		}
+		n := 0
+		for i, p := range fn.Params {
+			if !isRegexp(p.Type()) {
+				continue
+			}
+			switch p.Name() {
+			case "filter":
+				role[slot{fn, i}] = "f"
+				n++
+			case "match":
+				role[slot{fn, i}] = "m"
+				n++
+			}
+		}
+		if n != 2 {
+			a.und(rule, w+"/params", "the writer does not have a filter and a match parameter", fn.Pos())
+			continue
+		}
+		work = append(work, fn)
+	}
+	mainFn := c.MustFunc(a.obls, rule, "internal", "", "Main")
+	if mainFn == nil || len(work) == 0 {
+		return
+	}
+	pkg := mainFn.Pkg
+	// callers within the package
+	var fns []*ssa.Function
+	for _, m := range pkg.Members {
+		if f, ok := m.(*ssa.Function); ok {
+			fns = append(fns, f)
+			fns = append(fns, f.AnonFuncs...)
+		}
+	}
+	sort.Slice(fns, func(i, j int) bool { return fns[i].Pos() < fns[j].Pos() })
+	type site struct {
+		caller *ssa.Function
+		call   ssa.CallInstruction
+		callee *ssa.Function
+	}
+	var mainSites []site
+	seen := map[*ssa.Function]bool{}
+	bad := 0
+	for len(work) > 0 {
+		h := work[0]
+		work = work[1:]
+		if seen[h] {
+			continue
+		}
+		seen[h] = true
+		for _, g := range fns {
+			for _, b := range g.Blocks {
+				for _, in := range b.Instrs {
+					ci, ok := in.(ssa.CallInstruction)
+					if !ok || ci.Common().StaticCallee() != h {
+						continue
+					}
+					if g == mainFn || g.Parent() == mainFn {
+						mainSites = append(mainSites, site{g, ci, h})
+						continue
+					}
+					for i := range h.Params {
+						r := role[slot{h, i}]
+						if r == "" || i >= len(ci.Common().Args) {
+							continue
+						}
+						arg := ci.Common().Args[i]
+						p, isP := arg.(*ssa.Parameter)
+						if !isP {
+							bad++
+							a.bad(rule, fnName(g)+"->"+fnName(h)+"/"+r, fmt.Sprintf("the -%s expression handed to %s is not the one its caller received (%s)", r, fnName(h), arg.String()), in.Pos())
+							continue
+						}
+						pi := -1
+						for k, q := range g.Params {
+							if q == p {
+								pi = k
+							}
+						}
+						if old := role[slot{g, pi}]; old != "" && old != r {
+							bad++
+							a.bad(rule, fnName(g)+"->"+fnName(h)+"/"+r, fmt.Sprintf("parameter %s of %s is used both as the -%s and the -%s expression", p.Name(), fnName(g), old, r), in.Pos())
+							continue
+						}
+						role[slot{g, pi}] = r
+						a.ok(rule, fnName(g)+"->"+fnName(h)+"/"+r, fmt.Sprintf("the -%s expression is passed on unchanged", r), in.Pos())
+					}
+					if !seen[g] {
+						work = append(work, g)
+					}
+				}
+			}
+		}
+	}
+	if len(mainSites) == 0 {
+		a.und(rule, "Main/call", "no call from Main reaches the writers through parameters", mainFn.Pos())
+		return
+	}
+	// (2) Main
+	exprHome = pkg.Pkg
+	x := &SPE{Fn: mainFn, MaxVisits: 1}
+	x.Explore()
+	if x.Overflow {
+		a.und(rule, "Main/paths", "too many paths through Main", mainFn.Pos())
+		return
+	}
+	flagOf := func(e *Expr) string { // e: load of the pointer returned by flag.String(name, ...)
+		if e == nil || !(e.Op == OpInit || (e.Op == OpUn && e.Tok == token.MUL)) || len(e.Args) == 0 {
+			return ""
+		}
+		fc := e.Args[0]
+		if fc.Op == OpCall && fc.calleeIs("flag", "String") && len(fc.Args) >= 2 {
+			if s, ok := constStr(fc.Args[1]); ok {
+				return s
+			}
+		}
+		return ""
+	}
+	type verdict struct {
+		ok   bool
+		why  string
+		pos  token.Pos
+		seen int
+	}
+	res := map[string]*verdict{}
+	for _, p := range x.Paths {
+		empty := map[string]bool{}
+		tested := map[string]bool{}
+		for _, lt := range p.Lits {
+			at := lt.Atom
+			if at.Op == OpBin && at.Tok == token.EQL {
+				for i := 0; i < 2; i++ {
+					if s, ok := constStr(at.Args[1-i]); ok && s == "" {
+						if f := flagOf(at.Args[i]); f != "" {
+							tested[f] = true
+							empty[f] = lt.Pol
+						}
+					}
+				}
+			}
+		}
+		for _, ev := range p.Events {
+			if ev.Kind != EvCall || ev.Val.Op != OpCall || ev.Val.Fn == nil {
+				continue
+			}
+			for _, ms := range mainSites {
+				if ev.Val.Fn != ms.callee {
+					continue
+				}
+				for i := range ms.callee.Params {
+					r := role[slot{ms.callee, i}]
+					if r == "" || i+1 >= len(ev.Val.Args) {
+						continue
+					}
+					key := "Main->" + fnName(ms.callee) + "/" + r
+					v := res[key]
+					if v == nil {
+						v = &verdict{ok: true, pos: ev.Pos}
+						res[key] = v
+					}
+					v.seen++
+					arg := ev.Val.Args[i+1]
+					fail := func(why string) {
+						if v.ok {
+							v.ok, v.why, v.pos = false, why, ev.Pos
+						}
+					}
+					switch {
+					case !tested[r]:
+						fail(fmt.Sprintf("a path reaches the call without looking at the -%s flag (%s)", r, litsString(p)))
+					case empty[r]:
+						if !arg.isNilConst() {
+							fail(fmt.Sprintf("-%s was not given but the expression passed is %s", r, arg.String()))
+						}
+					default:
+						okArg := false
+						e := arg
+						if e.Op == OpExtract && e.ID == 0 && len(e.Args) == 1 {
+							e = e.Args[0]
+						}
+						if e.Op == OpCall && (e.calleeIs("regexp", "Compile") || e.calleeIs("regexp", "MustCompile") || e.calleeIs("regexp", "CompilePOSIX")) && len(e.Args) == 2 && flagOf(e.Args[1]) == r {
+							okArg = true
+						}
+						if !okArg {
+							fail(fmt.Sprintf("-%s was given but the expression passed in its place is %s, not the compiled flag value (%s)", r, arg.String(), litsString(p)))
+						}
+					}
+				}
+			}
+		}
+	}
+	if len(res) == 0 {
+		a.und(rule, "Main/call", "no explored path of Main reaches the call that starts processing", mainFn.Pos())
+		return
+	}
+	keys := make([]string, 0, len(res))
+	for k := range res {
+		keys = append(keys, k)
+	}
+	sort.Strings(keys)
+	for _, k := range keys {
+		if v := res[k]; v.ok {
+			a.ok(rule, k, fmt.Sprintf("on all %d paths the compiled flag value is passed when the flag is given, nil otherwise", v.seen), v.pos)
+		} else {
+			a.bad(rule, k, v.why+": the output would show blocks the given expressions do not admit, or hide admitted ones", v.pos)
+		}
+	}
+	_ = bad
 }
